@@ -482,6 +482,27 @@ pub fn gen(g: &mut Gen) {
         g.emit(format!("x-bin {}", hex(&d)));
     }
     g.count("generated-mutated");
+    // 2b. EVERY prefix of a batch of documents and of a fixed list of syntax samples: an input that ends
+    //     exactly behind a particular token (`[[x] y`, `a=rgb`, `a={ b`, a key without operator, a lone `\`)
+    //     is where end-of-input handling indexes into an empty slice
+    let samples: [&[u8]; 14] = [
+        b"a={ [[x] y ] b=c }", b"a={ [[!x] y=z w ] }", b"[[x] y=z ] c=d", b"a=rgb { 1 2 3 } b=hsv360{ 1 2 3 }", b"a={ b=c d e }", b"a={ 1 2 k=v }",
+        b"@[1+2] = @x a ?= b c != d e >= f", b"a=\"b\\\"c\" \"k\"=v", b"a = { { } { {} } } {} b = { }", b"#c\na=b#d\r\n;c=d;", b"\xef\xbb\xbfa=b", b"a={ b=[[c] d ] }",
+        b"a={ [[x] { y=z } ] [[w] q ] }", b"a=b=c ==d e= =f",
+    ];
+    for sm in samples.iter() {
+        for k in 0..=sm.len() { g.emit(format!("x-text {}", hex(&sm[..k]))); }
+    }
+    let n = g.budget(60, 1500);
+    for _ in 0..n {
+        let doc = docgen::gen_doc(&mut g.rng, &docgen::DocCfg { max_fields: 4, leading_empty_in_array: true, ..docgen::DocCfg::text_full() });
+        let base = docgen::render_layout(&mut g.rng, &docgen::LayoutCfg::full(), &docgen::lexemes(&doc));
+        if base.len() <= 160 { for k in 0..base.len() { g.emit(format!("x-text {}", hex(&base[..k]))); } }
+        let doc = docgen::gen_doc(&mut g.rng, &docgen::DocCfg { max_fields: 4, ghosts: true, mixed: true, ..docgen::DocCfg::shared() });
+        let base = docgen::render_binary(&mut g.rng, &docgen::BinCfg::default(), &doc);
+        if base.len() <= 160 { for k in 0..base.len() { g.emit(format!("x-bin {}", hex(&base[..k]))); } }
+    }
+    g.count("every-prefix");
     // 3. random strings
     let n = g.budget(1500, 30000);
     for _ in 0..n {
